@@ -1655,6 +1655,12 @@ func (t *Topic) thisUserSub(sess *Session, pkt *ClientComMessage, asUid types.Ui
 			sess.queueOut(InfoUseOtherReply(pkt, t.name, now))
 			return nil, types.ErrNotFound
 		}
+		if userData.isChan && !asChan {
+			// A channel reader (attached through another session) is trying to access the topic as a full subscriber:
+			// the reader's record cannot double as a subscription. Direct the reader to use the channel name.
+			sess.queueOut(InfoUseOtherReply(pkt, types.GrpToChn(t.name), now))
+			return nil, types.ErrNotFound
+		}
 
 		var ownerChange bool
 
